@@ -183,6 +183,11 @@ class Renderer:
         if k == "localsig":
             T = "Bit" if s["kind"] == "bit" else f"Unsigned[{s.get('w', self.W)}]"
             return [f"{p}{s['name']} = Signal[{T}]({self.rx(s['e'])})"]
+        if k == "localarr":
+            # local array Variable initialised from a tuple or a list of element values
+            elems = ", ".join(self.rx(e) for e in s["elems"])
+            init = f"({elems},)" if s.get("form") == "tuple" else f"[{elems}]"
+            return [f"{p}{s['name']} = Variable[Array[Unsigned[{self.W}], {len(s['elems'])}]]({init}, name='{s['name']}')"]
         if k == "localvar":
             T = "Bit" if s["kind"] == "bit" else f"Unsigned[{s.get('w', self.W)}]"
             return [f"{p}{s['name']} = Variable[{T}]({self.rx(s['e'])}, name='{s['name']}')"]
